@@ -7,6 +7,7 @@ CONSTANTS
   ALPHA = "reduced"
   MAXLEN = 10
   GUARD = TRUE
+  AFPARK = FALSE
 INVARIANT Inv
 PROPERTY MCIsolation
 VIEW MCView
